@@ -48,10 +48,36 @@ fn fields(dev: &SparseDev, slot: usize) -> J {
     })
 }
 
+type Vm = VolumeManager<SparseDev, Clock, 4, 4, 1>;
+
 fn listing(dev: SparseDev, slot: usize) -> (String, String, Vec<String>, String) {
-    // (result kind, message, names, post status)
     let clock = Clock(Rc::new(Cell::new(0)));
-    let vm: VolumeManager<SparseDev, Clock, 4, 4, 1> = VolumeManager::new_with_limits(dev, clock, 100);
+    let vm: Vm = VolumeManager::new_with_limits(dev, clock, 100);
+    listing_with(&vm, slot)
+}
+
+/// One manager, two looks at the medium: open `slot0` (and close it again if that worked), let `change` rewrite the medium
+/// through `VolumeManager::device`, then open `slot1` - the answer must be the one a fresh manager gives for the medium as it is now.
+fn relisting(dev: SparseDev, slot0: usize, change: &dyn Fn(&mut SparseDev), slot1: usize) -> (String, String, Vec<String>, String) {
+    let clock = Clock(Rc::new(Cell::new(0)));
+    let vm: Vm = VolumeManager::new_with_limits(dev, clock.clone(), 100);
+    let first = catch_unwind(AssertUnwindSafe(|| {
+        if let Ok(v) = vm.open_raw_volume(VolumeIdx(slot0)) {
+            let _ = vm.close_volume(v);
+        }
+    }));
+    if first.is_err() {
+        return ("panic".into(), "first open panicked".into(), vec![], "na".into());
+    }
+    let _ = vm.device(|d| {
+        change(d);
+        clock.clone()
+    });
+    listing_with(&vm, slot1)
+}
+
+fn listing_with(vm: &Vm, slot: usize) -> (String, String, Vec<String>, String) {
+    // (result kind, message, names, post status)
     let r = catch_unwind(AssertUnwindSafe(|| vm.open_raw_volume(VolumeIdx(slot))));
     match r {
         Err(p) => ("panic".into(), panic_msg(&p), vec![], "na".into()),
@@ -240,6 +266,61 @@ pub fn mount_vectors(specs: &J, out: &mut dyn Write, tier: &str, seed: u64) -> J
                     st.put(0, &m);
                 }
                 emit(format!("every other slot of the table: type 6 start {} length {}", st0, ln), d, true, out, &mut n);
+            }
+        }
+        // the table changes while one manager lives (the card is re-partitioned through VolumeManager::device, or its
+        // entry moves to another slot): the second open sees the medium as it is then
+        {
+            let entry: [u8; 16] = {
+                let st = img.dev.0.borrow();
+                let m = st.get(0);
+                let mut e = [0u8; 16];
+                e.copy_from_slice(&m[p..p + 16]);
+                e
+            };
+            for s2 in (0..4).filter(|o| *o != slot) {
+                let q = 446 + s2 * 16;
+                // (a) the entry moves from its slot to slot s2
+                let d = img.dev.snapshot();
+                let mv = move |dv: &mut SparseDev| {
+                    let mut st = dv.0.borrow_mut();
+                    let mut m = st.get(0);
+                    m[q..q + 16].copy_from_slice(&entry);
+                    for x in m[p..p + 16].iter_mut() {
+                        *x = 0;
+                    }
+                    st.put(0, &m);
+                };
+                let (k, msg, names, post) = relisting(d.clone(), slot, &mv, s2);
+                let f = fields(&d, s2);
+                let j = json!({"ev": "Mount", "mut": format!("entry moved from slot {} to slot {} under a live manager", slot, s2), "f": f, "r": k, "msg": msg,
+                    "same": names == base_names, "post": post, "benign": true, "geo": geo, "base": false});
+                serde_json::to_writer(&mut *out, &j).unwrap();
+                out.write_all(b"\n").unwrap();
+                n += 1;
+            }
+            // (b) the slot first holds an unsupported type / nothing, then the real entry
+            for &ty0 in &[0x83u8, 0x00, 0x07] {
+                let d = img.dev.snapshot();
+                {
+                    let mut st = d.0.borrow_mut();
+                    let mut m = st.get(0);
+                    m[p + 4] = ty0;
+                    st.put(0, &m);
+                }
+                let fix = move |dv: &mut SparseDev| {
+                    let mut st = dv.0.borrow_mut();
+                    let mut m = st.get(0);
+                    m[p..p + 16].copy_from_slice(&entry);
+                    st.put(0, &m);
+                };
+                let (k, msg, names, post) = relisting(d.clone(), slot, &fix, slot);
+                let f = fields(&d, slot);
+                let j = json!({"ev": "Mount", "mut": format!("slot {} had type {} at the first open, the real entry at the second (same manager)", slot, ty0), "f": f, "r": k, "msg": msg,
+                    "same": names == base_names, "post": post, "benign": true, "geo": geo, "base": false});
+                serde_json::to_writer(&mut *out, &j).unwrap();
+                out.write_all(b"\n").unwrap();
+                n += 1;
             }
         }
         // the partition at the very end of the 32-bit block range, with a valid boot sector there
